@@ -90,6 +90,9 @@ def check_geom(g, rec):
     from ..ops import _layout
     sc = 2.0 ** g.get("pow2", 0)
     x = _layout((np.asarray(g["x"], dtype=np.float64) * sc).astype(dt).reshape(N, C, H, W), g.get("layout", "C"))
+    if g.get("view"):
+        x = _special_view(x, g["view"])
+        rec.tag("view_" + g["view"])
     g = dict(g, y=[v * sc for v in g["y"]])
     if g.get("pow2", 0):
         rec.tag("scaled_values")
@@ -191,9 +194,12 @@ def check_geom(g, rec):
         _eq(f"{name}(im2col(x)) vs x*count", o, want, g)
         o = np.asarray(_call(name, fn, un0_2, (N, C, H, W), K, D, S, P)).astype(np.float64)
         _eq(f"{name}(im2col(x)) vs x*count [2-D layout]", o, want, g)
-    # fold form: output size given as (H, W)
-    o = np.asarray(_call("col2im_fast", ct.col2im_fast, un0, (H, W), K, D, S, P)).astype(np.float64)
-    _eq("col2im_fast(output_size=(H,W))", o, want, g)
+    # fold form: output size given as (H, W) with the 3-D layout - all three variants implement it
+    for name, fn in (("col2im", ct.col2im), ("col2im_v2", ct.col2im_v2), ("col2im_fast", ct.col2im_fast)):
+        o = np.asarray(_call(f"{name}(output_shape=(H,W))", fn, un0, (H, W), K, D, S, P)).astype(np.float64)
+        _eq(f"{name}(output_shape=(H,W))", o, want, g)
+        o = np.asarray(_call(f"{name}(output_shape=[H,W])", fn, y3, [H, W], K, D, S, P))
+        _eq(f"{name}(y, output_shape=[H,W])", o, fold_want, g)
 
     # ---- sliding-window extractor and placement ---------------------------------------------
     wref = R.windows2d_ref(x, k, s, p, d, pv)
@@ -202,6 +208,43 @@ def check_geom(g, rec):
     yw = _layout(gen.cyc(g["y"], wref.shape, dt), g.get("layout", "C"))
     pl = _call("place_windows", ct.place_windows, yw, (N, C, H, W), K, S, P, D)
     _eq("place_windows", pl, R.place2d_ref(yw, (N, C, H, W), k, s, p, d), g)
+
+
+def _special_view(arr, kind):
+    """views whose strides are unusual although NumPy may flag them contiguous (length-1 axes), or that repeat memory"""
+    N, C, H, W = arr.shape
+    if kind == "newaxis_last" and W == 1:
+        return np.ascontiguousarray(arr[..., 0])[..., None]                 # stride 0 on the last axis
+    if kind == "newaxis_h" and H == 1:
+        return np.ascontiguousarray(arr[:, :, 0, :])[:, :, None, :]
+    if kind == "reversed_last":
+        return np.ascontiguousarray(arr[..., ::-1])[..., ::-1]              # negative stride (also when W == 1)
+    if kind == "reversed_h":
+        return np.ascontiguousarray(arr[:, :, ::-1, :])[:, :, ::-1, :]
+    if kind == "broadcast_w":
+        return np.broadcast_to(arr[..., :1], arr.shape)                     # stride 0 over a real axis, read-only
+    if kind == "broadcast_n":
+        return np.broadcast_to(arr[:1], arr.shape)
+    return arr
+
+
+@st.composite
+def degenerate_view_cases(draw):
+    """an axis of length 1 (kernel 1 there, no padding at all) or repeated memory, reached through a view"""
+    a = draw(gen.axis_geom(pmax=0))
+    one = {"L": 1, "k": 1, "s": draw(st.integers(1, 2)), "d": draw(st.integers(1, 2)), "p": 0}
+    which = draw(st.sampled_from(["w1", "w1", "h1", "both1", "plain"]))
+    ax_h, ax_w = {"w1": (a, one), "h1": (one, a), "both1": (one, dict(one)), "plain": (a, draw(gen.axis_geom(pmax=1)))}[which]
+    N = draw(st.integers(1, 3)); C = draw(st.integers(1, 3))
+    g = {"N": N, "C": C, "H": ax_h["L"], "W": ax_w["L"], "k": [ax_h["k"], ax_w["k"]], "s": [ax_h["s"], ax_w["s"]],
+         "d": [ax_h["d"], ax_w["d"]], "p": [ax_h["p"], ax_w["p"]],
+         "spell": {key: draw(st.sampled_from(["int", "tuple", "list"])) for key in "ksdp"},
+         "pad_value": draw(st.integers(-5, 5)), "dtype": draw(st.sampled_from(["float64", "float32"])), "layout": "C", "pow2": 0,
+         "view": draw(st.sampled_from(["newaxis_last", "newaxis_h", "reversed_last", "reversed_h", "broadcast_w", "broadcast_n"]))}
+    n = N * C * g["H"] * g["W"]
+    g["x"] = draw(hnp.arrays(np.int8, (n,), elements=st.integers(-9, 9), fill=st.nothing())).tolist()
+    g["y"] = draw(hnp.arrays(np.int8, (48,), elements=st.integers(-9, 9), fill=st.nothing())).tolist()
+    return g
 
 
 @st.composite
@@ -351,6 +394,7 @@ def check_enum(g, rec):
 def subchecks():
     return [
         SubCheck("geom2d", check_geom, geom_cases, quick=300, thorough=700, shards_quick=8, shards_thorough=16),
+        SubCheck("degenerate_views", check_geom, degenerate_view_cases, quick=300, thorough=3000, shards_quick=2, shards_thorough=4),
         SubCheck("long_side", check_long_side, long_side_cases, quick=48, thorough=600, shards_quick=4, shards_thorough=8),
         SubCheck("long_side_2^16", check_long_side, lambda: long_side_cases(big=True), quick=2, thorough=6, shards_quick=4,
                  shards_thorough=8),
